@@ -44,8 +44,8 @@ RULE = (
 )
 ASSUMPTIONS = [
     "multi-video label sets (each labelled frame is frame 0 of its own video) are part of the label-set alphabet: 4 two-video sets in quick, 25 in thorough; "
-    "2 (quick) / 25 (thorough) of them again with videos of different frame sizes (48x64 and 44x56) and preprocessing.max_height or max_width "
-    "stated by the user with exactly the value both frameworks receive through max_hw (so both have the same documented target)",
+    "2 (quick) / 25 (thorough) of them again with videos of different frame sizes (48x64 and 44x56), "
+    "in both video orders and preprocessing.max_height or max_width stated by the user with exactly the value both frameworks receive through max_hw (so both have the same documented target)",
     "litdata hand-over: in 'bin' mode the samples go through litdata's real BinaryWriter -> .bin chunks -> real "
     "litdata.StreamingDataset in ONE process; assumed: optimize()'s worker processes write what this writer writes. "
     "In 'stub' mode (fallback) litdata.StreamingDataset.__init__/__getitem__ are stubbed to hand the chunk function's "
@@ -161,7 +161,10 @@ def groups_for(tier, handover):
     if tier == "quick":
         for ls in itertools.product(Hh.QUICK_TYPES, repeat=2):
             for src in (False, True):
-                groups.append((list(ls), src, configs_small(ls, src, True, handover, product=False)))
+                cs = configs_small(ls, src, True, handover, product=False)
+                if "AP" in ls and not src:  # user_instances_only=False matters only next to a predicted instance
+                    cs = cs + configs_small(ls, src, False, handover, product=False)
+                groups.append((list(ls), src, cs))
         return groups
     for ls in itertools.product(Hh.THOROUGH_TYPES, repeat=2):
         for src in (False, True):
@@ -338,12 +341,13 @@ def run(ctx):
     # ... and two-video sets whose videos have DIFFERENT frame sizes (the size matcher has real work to do on the smaller
     # one), with the size target stated by the user for neither / one of the two dimensions
     for ls in mv_sets[:2] if ctx.tier == "quick" else mv_sets:
-        cs = []
-        for ci, c in enumerate(configs_small(list(ls), False, True, handover, product=ctx.tier != "quick")):
-            for dim in (None, "height", "width") if ctx.tier != "quick" else ((None, "height", "width")[ci % 3], (None, "height", "width")[(ci + 1) % 3]):
-                cs.append(dict(c, multi_video="sizes", cfg_dim=dim))
-        if cs:
-            groups.append((list(ls), False, cs))
+        for order in ("sizes", "sizes-rev"):  # large video first / small video first
+            cs = []
+            for ci, c in enumerate(configs_small(list(ls), False, True, handover, product=ctx.tier != "quick")):
+                for dim in (None, "height", "width") if ctx.tier != "quick" else ((None, "height", "width")[ci % 3], (None, "height", "width")[(ci + 1) % 3]):
+                    cs.append(dict(c, multi_video=order, cfg_dim=dim))
+            if cs:
+                groups.append((list(ls), False, cs))
     n_cases = sum(len(g[2]) for g in groups)
     ctx.bounds = {
         "tier": ctx.tier,
@@ -361,7 +365,7 @@ def run(ctx):
         "source_rgb_x_is_rgb": "all four pairs",
         "anchor": [0] + ([None] if ctx.tier == "thorough" else []),
         "crop_hw": [[32, 32], [24, 40]],
-        "user_instances_only": [True] + ([False] if ctx.tier == "thorough" else []),
+        "user_instances_only": [True, False],
         "litdata_handover": handover,
         "block_cases": 2 * len(CATALOGUE) * sum(len(v) for v in Hh.BLOCK_PARAMS.values()),
         "blocks": Hh.BLOCKS,
